@@ -3,6 +3,7 @@
 // Protocol: tools/PROTOCOL.md.  The Lean driver (lean/Main.lean) reads the same file.
 #include "common.h"
 #include "algops.h"
+#include "csops.h"
 
 struct State {
   std::unique_ptr<Model> m;
@@ -12,7 +13,9 @@ struct State {
   bool has_fext = false;
   std::string caseId = "none";
   unsigned int callNo = 0;
+  CSState C;
   void fresh(const std::string &id) {
+    C.fresh();
     m.reset(new Model());
     customs.clear();
     q = VectorNd::Zero(0); qd = q; qdd = q; tau = q;
@@ -264,6 +267,7 @@ static void doCall(State &s, Toks &t) {
                           : solver == 2 ? LinearSolverHouseholderQR : LinearSolverLLT;
     ForwardDynamicsLagrangian(m, s.q, s.qd, s.tau, qdd, ls, fe);
     o.vec(qdd);
+  } else if (csCall(name, t, m, s.C, s.q, s.qd, s.qdd, s.tau, fe, o)) {
   } else {
     o.str("bad-call");
   }
@@ -374,6 +378,11 @@ int main() {
           for (unsigned i = 0; i < n; i++) s.fext.push_back(t.sv());
           s.has_fext = true;
         }
+      }
+      else if (cmd.rfind("cs_", 0) == 0) {
+        std::string out;
+        if (!csCommand(cmd, t, *s.m, s.C, out)) emit(s, cmd, "bad-op");
+        else if (!out.empty()) emit(s, cmd, out);
       }
       else if (cmd == "alg") { std::string r = algOp(t); size_t sp = r.find(' '); emit(s, "alg." + r.substr(0, sp), r.substr(sp + 1)); }
       else if (cmd == "poison") poisonModel(*s.m, t.nat());
